@@ -1,8 +1,10 @@
 import Pyunicorn.Model.Proto
 import Pyunicorn.Model.Geo
+import Pyunicorn.Model.GeoHist
 /-! Line-protocol driver for C12 (grid geometry).
 
-Exact requests (`Rat`): `cosang`, `eucl2`, `gridnn`, `rect`, `convlon`, `maxld`, `ald`.
+Exact requests (`Rat`): `cosang`, `eucl2`, `gridnn`, `rect`, `convlon`, `maxld`, `ald`,
+`geodist`, `geocum`, `nbawc`, `maxnbawc`, `geomdd`, `linkdd` (round 3).
 Floating requests (`Float`, answers as IEEE-754 bit patterns): `angdist`,
 `eucld`, `geonn`, `weights`, `awc`. -/
 open Pyunicorn Pyunicorn.Proto Pyunicorn.Geo
@@ -38,6 +40,15 @@ def showOptRats (xs : List (Option Rat)) : String :=
 
 def wtype (s : String) : WType :=
   if s == "surface" then .surface else if s == "irrigation" then .irrigation else .none
+
+def showExcRats : Except String (List Rat) → String
+  | .ok v => showRats v
+  | .error e => if e == "nonfinite" then e else "raise:" ++ e
+
+def showExcOptRats : Except String (Option (List Rat)) → String
+  | .ok (some v) => showRats v
+  | .ok none => "nonfinite"
+  | .error e => "raise:" ++ e
 
 def answer (toks : List String) : String :=
   match toks with
@@ -88,6 +99,27 @@ def answer (toks : List String) : String :=
         else avgALD (α := Rat) (mode == "dir")
       showOptRats ((List.range N).map
         (f (mat (ratMat d)) (mat (ratMat a)) N (N : Rat) (corr == "1")))
+  -- round 3: `geographical_distribution(sequence, n_bins)[0]` with weights `w` (= `cos_lat()`)
+  | ["geodist", nb, w, sq] =>
+      showExcRats (geoDist (vec (rats w)) (rats sq) nb.toNat!)
+  -- `geographical_cumulative_distribution(sequence, n_bins)[0]`
+  | ["geocum", nb, w, sq] =>
+      showExcRats ((geoDist (vec (rats w)) (rats sq) nb.toNat!).map cumFrom)
+  -- `average_neighbor_area_weighted_connectivity` from awc, degree, undirected adjacency
+  | ["nbawc", n, awc, deg, a] =>
+      let N := n.toNat!
+      showRats ((List.range N).map (avgNbAWC (vec (rats awc)) (vec (rats deg)) (mat (ratMat a)) N))
+  -- `max_neighbor_area_weighted_connectivity` (per node; `none` = ValueError of that node)
+  | ["maxnbawc", n, awc, a] =>
+      let N := n.toNat!
+      showOptRats ((List.range N).map (maxNbAWC (vec (rats awc)) (mat (ratMat a)) N))
+  -- `geometric_distance_distribution(n_bins)[0]` from the distance matrix
+  | ["geomdd", n, nb, d] =>
+      showExcOptRats (geomDistDist (mat (ratMat d)) n.toNat! nb.toNat!)
+  -- `link_distance_distribution(n_bins, geometry_corrected)[0]`
+  | ["linkdd", corr, n, nb, d, dg, a] =>
+      showExcOptRats (linkDistDist (mat (ratMat d)) (mat (ratMat dg)) (mat (ratMat a)) n.toNat!
+        nb.toNat! (corr == "1"))
   | _ => "bad-request"
 
 def main : IO Unit := runDriver answer
